@@ -14,7 +14,7 @@ import os
 import shutil
 import sys
 
-from . import core, programs, extract
+from . import core, programs, c08_extra, extract
 
 INT, STR, BOOL = ("int",), ("str",), ("bool",)
 LINT = ("list", INT)
@@ -1751,6 +1751,30 @@ def run(ctx):
                        {"files": {"main.ms": src, "lib.ms": MOD_LIB}, "expected": exp, "observed": got, "rc": rc, "stderr": err[-400:], "how": "mscript run main.ms -q"})
     n_eval += len(mcs)
     ctx.cov["objects_of_another_module_cases"] = len(mcs)
+    # second hunting round (vlib/c08_extra.py): member order, objects as map keys, `is` on lists, index_of on lists of objects
+    xcs = c08_extra.cases(ctx.rng, ctx.quick())
+
+    def one_x(c):
+        d = programs.materialize({"files": {"main.ms": c["src"]}}, rbase)
+        r = programs.run_bin(binary, ["run", "main.ms", "-q"], d)
+        shutil.rmtree(d, ignore_errors=True)
+        return r
+    x_seen = set()
+    x_fam = {}
+    for c, (rc, out, err) in zip(xcs, programs.pmap(one_x, xcs)):
+        got = out.split("\n")[:-1]
+        x_fam[c["family"]] = x_fam.get(c["family"], 0) + 1
+        if rc != 0 or got != c["exp"]:
+            spec_found = True
+            spec_fail += 1
+            if c["class"] in x_seen:
+                continue
+            x_seen.add(c["class"])
+            ctx.report(c["class"], "%s (%s): exit %d, printed %r, expected exit 0 and %r %s"
+                       % (c["family"], c["what"], rc, got[-8:], c["exp"][-8:], [l.strip() for l in err.splitlines() if l.strip()][-1:]),
+                       {"program": c["src"], "expected": c["exp"], "observed": got, "rc": rc, "stderr": err[-400:], "family": c["family"], "how": "mscript run main.ms -q"})
+    n_eval += len(xcs)
+    ctx.cov["second_round_catalogue_cases"] = dict(sorted(x_fam.items()))
     ctx.cov["evaluations"] = n_eval
     ctx.cov["traces_validated_against_impl"] = n_cmp
     ctx.cov["distinct_nontrivial"] = nontrivial
@@ -1759,7 +1783,8 @@ def run(ctx):
     ctx.cov["rule"] = ("cases = hand-written aliasing histories + random (class table, history) pairs: <= 3 classes, 1-4 fields each of type int / str / bool / int? / str? / "
                        "[int...] / earlier class / optional class (incl. Self) / list of objects, constructor arguments in any order, literals, [] or nothing (nil); "
                        "histories <= 15 operations (paths x.f.g as receivers and operands, map round trip thru_C); non-trivial = compiled history of >= 6 operations with >= 2 constructions and an aliasing step "
-                       "(assignment, return value, list element, field content, argument)")
+                       "(assignment, return value, list element, field content, argument); plus vlib/c08_extra.py: class members in every order, "
+                       "objects as map keys across field updates, `is` between list values, index_of on lists of objects (expected output written from the property)")
     ctx.cov["exhaustive"] = False
     ctx.cov["fixed_histories"] = n_fixed
     ctx.cov["programs"] = n_prog
